@@ -248,6 +248,10 @@ func (e *Engine) Execute(tr core.Trace, ctx *core.Ctx) {
 	}
 
 	const P = "C20"
+	if t.Child {
+		e.childLoad(t, ctx, img, ref)
+		return
+	}
 	var p *elf.Parser
 	var err error
 	var fr *faultyReader
@@ -405,6 +409,67 @@ func (e *Engine) Execute(tr core.Trace, ctx *core.Ctx) {
 	}
 }
 
+// childLoad is the loader as the program itself wires it (parseElf in
+// cmd/mltwist/main.go), which the in-process runs above cannot see: the real
+// binary is started on the image; when it reaches its first prompt although
+// the independent reader says the file must be refused (type none / relocatable
+// / core, segments that overlap or whose in-memory size is below their file
+// size or that lie outside the file, overlapping code sections), the program
+// has accepted a file C20 says is rejected. Errors, and crashes (C26's
+// business), are no verdict here.
+func (e *Engine) childLoad(t *Trace, ctx *core.Ctx, img []byte, ref *elfref.File) {
+	const P = "C20"
+	if ref == nil || ref.Unjudgeable != "" {
+		ctx.Probe("unjudged")
+		return
+	}
+	if slowForChild(ref) {
+		ctx.Probe("skipped_slow_child")
+		return
+	}
+	why := ""
+	if ref.Type == 0 || ref.Type == 1 || ref.Type == 4 {
+		why = fmt.Sprintf("type-%d", ref.Type)
+	}
+	if why == "" {
+		want, bad := ref.Segments(img)
+		switch {
+		case bad == "huge":
+		case bad != "":
+			why = "segments-" + bad
+		case elfref.Wraps(want):
+		case elfref.Overlap(want):
+			why = "segments-overlap"
+		}
+	}
+	if why == "" {
+		want, bad := ref.CodeSections(img)
+		switch {
+		case bad != "":
+			why = "code-" + bad
+		case elfref.Wraps(want):
+		case elfref.Overlap(want):
+			why = "code-overlap"
+		}
+	}
+	path := scratchPath()
+	if err := os.WriteFile(path, img, 0o644); err != nil {
+		panic("HARNESS: cannot write scratch image: " + err.Error())
+	}
+	defer os.Remove(path)
+	cls, status, _, so, se := e.runChild(t, ctx, path)
+	ctx.Note("child -> %s (reference: %q)", cls, why)
+	ctx.State(headerShape(t.Desc) + "|child:" + cls + "|" + why)
+	ctx.Probe("child:" + cls)
+	ctx.MarkNonTrivial()
+	if why != "" {
+		ctx.Probe("child_on_file_to_refuse")
+		if cls == "ui-entered-quit-ok" {
+			ctx.Fail(P, "child", "child-accepted/"+why, len(t.Faults), "the real binary entered its UI on a file that must be rejected (%s): status %d, stderr %q, stdout tail %q", why, status, tailStr(se, 200), tailStr(so, 200))
+		}
+	}
+}
+
 func blocksSorted(m *elf.Memory) bool {
 	for i := 1; i < len(m.Blocks); i++ {
 		if m.Blocks[i].Begin() < m.Blocks[i-1].End() {
@@ -533,6 +598,37 @@ func (e *Engine) executeStartup(t *Trace, ctx *core.Ctx) {
 // works".
 func (e *Engine) child(t *Trace, ctx *core.Ctx, path string, ev int) {
 	const P = "C26"
+	cls, status, entered, so, se := e.runChild(t, ctx, path)
+	ctx.Note("child -> %s", cls)
+	ctx.State(headerShape(t.Desc) + "|" + t.Path + "|" + t.Args + "|child:" + cls)
+	ctx.Probe("child:" + cls)
+	ctx.MarkNonTrivial()
+	if cls == "crash" {
+		first := se
+		if i := strings.Index(first, "\n"); i > 0 {
+			first = first[:i]
+		}
+		where := "unknown"
+		for _, l := range strings.Split(se, "\n") {
+			l = strings.TrimSpace(l)
+			if strings.HasPrefix(l, "mltwist/") || strings.HasPrefix(l, "main.") {
+				if i := strings.LastIndex(l, "("); i > 0 {
+					l = l[:i]
+				}
+				where = strings.TrimPrefix(l, "mltwist/")
+				break
+			}
+		}
+		ctx.Fail(P, "no-crash", "child-crash/"+where+"/"+core.MsgClass(first), ev, "real binary crashed (status %d): %s", status, tailStr(se, 1200))
+		return
+	}
+	if cls == "nonzero-without-message" || cls == "status0-without-ui" {
+		ctx.Fail(P, "outcome", "child-outcome/"+cls, ev, "real binary: status %d, entered UI %v, stderr %q, stdout tail %q", status, entered, tailStr(se, 300), tailStr(so, 200))
+	}
+}
+
+// runChild starts the real binary on path and classifies how it ended.
+func (e *Engine) runChild(t *Trace, ctx *core.Ctx, path string) (cls string, status int, entered bool, so, se string) {
 	bin := filepath.Join(core.VerifDir(), "build", "mltwist")
 	if _, err := os.Stat(bin); err != nil {
 		panic("HARNESS: real binary not built: " + bin)
@@ -587,7 +683,6 @@ func (e *Engine) child(t *Trace, ctx *core.Ctx, path string, ev int) {
 	}
 	var werr error
 	exited := false
-	entered := false
 	deadline := time.After(20 * time.Second)
 	tick := time.NewTicker(2 * time.Millisecond)
 	defer tick.Stop()
@@ -623,9 +718,9 @@ loop:
 	}
 	_ = exited
 	mu.Lock()
-	so, se := out.String(), errb.String()
+	so, se = out.String(), errb.String()
 	mu.Unlock()
-	status := 0
+	status = 0
 	signaled := false
 	if ee, ok := werr.(*exec.ExitError); ok {
 		status = ee.ExitCode()
@@ -636,7 +731,6 @@ loop:
 		panic("HARNESS: wait failed: " + werr.Error())
 	}
 	crashText := strings.Contains(se, "panic:") || strings.Contains(se, "fatal error:") || strings.Contains(se, "goroutine ")
-	cls := ""
 	switch {
 	case crashText || signaled:
 		cls = "crash"
@@ -649,32 +743,7 @@ loop:
 	default:
 		cls = "status0-without-ui"
 	}
-	ctx.Note("child -> %s", cls)
-	ctx.State(headerShape(t.Desc) + "|" + t.Path + "|" + t.Args + "|child:" + cls)
-	ctx.Probe("child:" + cls)
-	ctx.MarkNonTrivial()
-	if cls == "crash" {
-		first := se
-		if i := strings.Index(first, "\n"); i > 0 {
-			first = first[:i]
-		}
-		where := "unknown"
-		for _, l := range strings.Split(se, "\n") {
-			l = strings.TrimSpace(l)
-			if strings.HasPrefix(l, "mltwist/") || strings.HasPrefix(l, "main.") {
-				if i := strings.LastIndex(l, "("); i > 0 {
-					l = l[:i]
-				}
-				where = strings.TrimPrefix(l, "mltwist/")
-				break
-			}
-		}
-		ctx.Fail(P, "no-crash", "child-crash/"+where+"/"+core.MsgClass(first), ev, "real binary crashed (status %d): %s", status, tailStr(se, 1200))
-		return
-	}
-	if cls == "nonzero-without-message" || cls == "status0-without-ui" {
-		ctx.Fail(P, "outcome", "child-outcome/"+cls, ev, "real binary: status %d, entered UI %v, stderr %q, stdout tail %q", status, entered, tailStr(se, 300), tailStr(so, 200))
-	}
+	return cls, status, entered, so, se
 }
 
 func tailStr(s string, n int) string {
